@@ -117,6 +117,10 @@ type Case struct {
 	// with a complete, valid reply (the executable's behaviour is rewritten in between): what a
 	// plugin object saw in an earlier reply is not part of a later reply
 	Earlier      bool   `json:"earlier,omitempty"`
+	// ExeLink (metadata, reply with a wrong name): <root>/<name>/notation-<name> is a symbolic link to
+	// an executable called notation-<ExeLink>, and the reply names <ExeLink>: the plugin's file name
+	// is the name it is installed and looked up under, not where a link leads
+	ExeLink      string `json:"exeLink,omitempty"`
 	PadStderr    int64  `json:"padStderr,omitempty"`
 	PadStdoutKey string `json:"padStdoutKey,omitempty"`
 	PadStderrKey string `json:"padStderrKey,omitempty"`
@@ -447,6 +451,12 @@ func genProduct(rt *rapid.T) *Case {
 		c.Out = rp.Pick(rt, "stdoutKind", stdoutKinds(c.Cmd)...)
 	}
 	c.Stdout = genStdout(rt, c.Out, c.Reply, c.Name)
+	if c.Cmd == "get-plugin-metadata" && c.Out == "wrongname" && rapid.IntRange(0, 2).Draw(rt, "exeIsLink") == 0 {
+		c.ExeLink = c.Name + "x"
+		m := objectOf(c.Reply)
+		m["name"] = json.RawMessage(mustJSON(c.ExeLink))
+		c.Stdout = mustJSON(m)
+	}
 	c.Err = rp.Pick(rt, "stderrKind", stderrKinds...)
 	if c.Err == "structured" && rapid.IntRange(0, 5).Draw(rt, "largeStructuredError") == 0 {
 		// a structured error whose message is large but far below the output cap: it is the plugin's
@@ -537,6 +547,17 @@ func prepare(c *Case) (*sandbox, error) {
 	if err := os.Link(bin, sb.exe); err != nil {
 		// other file system: copy (closed before any process is started by this case)
 		if err := copyFile(bin, sb.exe); err != nil {
+			sb.cleanup()
+			return nil, err
+		}
+	}
+	if c.ExeLink != "" {
+		target := filepath.Join(sb.dir, "notation-"+c.ExeLink)
+		if err := os.Rename(sb.exe, target); err != nil {
+			sb.cleanup()
+			return nil, err
+		}
+		if err := os.Symlink(target, sb.exe); err != nil {
 			sb.cleanup()
 			return nil, err
 		}
@@ -985,12 +1006,27 @@ func judgeOutcome(c *Case, r *result) (string, string) {
 	et := errType(r.err)
 	overOut := strings.HasPrefix(c.Out, "overcap")
 	overErr := strings.HasPrefix(c.Err, "overcap")
-	killedByHost := c.Timing == "slow" || c.Timing == "cancel" || c.Timing == "descendant-slowparent" || c.Timing == "lingers"
+	killedByHost := c.Timing == "slow" || c.Timing == "cancel" || c.Timing == "descendant-slowparent" || c.Timing == "lingers" || c.Timing == "lingers-after-error"
 	switch {
 	case killedByHost:
 		// the process never wrote a reply and was killed at the deadline / cancellation
 		if r.err == nil {
 			return "C17:success-only-if:plugin-killed-at-deadline", fmt.Sprintf("the plugin sleeps %d ms and the context ended after %d ms, yet %s succeeded", c.SleepMs, c.DeadlineMs+c.CancelMs, c.Cmd)
+		}
+		if c.Timing == "lingers-after-error" {
+			// a failing process (it had to be killed) that printed its own structured error in full
+			re, ok := asRequestError(r.err)
+			if !ok {
+				return "C17:error-mapping:structured-error-not-returned", fmt.Sprintf("the plugin printed the structured error %s and was killed when the context ended; the call returned %T %q", short(c.Stderr), r.err, errText(r.err))
+			}
+			msg := ""
+			if re.Err != nil {
+				msg = re.Err.Error()
+			}
+			if string(re.Code) != c.ErrCode || msg != c.ErrMsg || !sameMap(re.Metadata, c.ErrMeta) {
+				return "C17:error-mapping:structured-error-content", fmt.Sprintf("printed %s, returned code=%q message=%q metadata=%v", short(c.Stderr), re.Code, short(msg), re.Metadata)
+			}
+			return "", ""
 		}
 		if c.Stderr == "" && c.PadStderr == 0 && et == "untyped" {
 			// a process that the host had to kill is a failing process, and this one printed nothing
@@ -1124,6 +1160,9 @@ func classesOf(c *Case, r *result) []string {
 		cl = append(cl, "exit=0")
 	}
 	cl = append(cl, "stdout="+c.Out, "stderr="+c.Err, "ctx="+c.Ctx, "via="+c.Via, "timingkind="+c.Timing)
+	if c.ExeLink != "" {
+		cl = append(cl, "executable-is-a-link-to-a-differently-named-file")
+	}
 	if c.Earlier {
 		cl = append(cl, "plugin-object-served-a-complete-metadata-reply-before")
 		if c.Cmd == "get-plugin-metadata" && (strings.HasPrefix(c.Out, "missing-") || strings.HasPrefix(c.Out, "empty-")) {
@@ -1174,7 +1213,7 @@ func classesOf(c *Case, r *result) []string {
 func record(rec *stats.Recorder, c *Case, r *result) {
 	nt := !(c.Exit == 0 && !c.Kill && c.Out == "valid" && c.Timing == "immediate")
 	fp := stats.Fingerprint(c.Test, c.Cmd, c.Exit, c.Kill, c.Out, c.Err, c.ErrCode, c.ErrMsg == "", len(c.ErrMeta), c.Timing, c.Ctx, c.Via,
-		c.PadStdout, c.PadStderr, c.PadStdoutKey, c.PadStderrKey, c.Earlier)
+		c.PadStdout, c.PadStderr, c.PadStdoutKey, c.PadStderrKey, c.Earlier, c.ExeLink)
 	rec.Case(classesOf(c, r), nt, fp, func() any { return c })
 }
 
@@ -1432,7 +1471,7 @@ func TestC17_Cap(t *testing.T) {
 
 // timingCases enumerates the timing behaviours; details are generated.
 func timingCases(n int, seed uint64) []*Case {
-	kinds := []string{"descendant", "slow", "cancel", "descendant-slowparent", "nodeadline", "descendant-cancel", "descendant-failing", "lingers"}
+	kinds := []string{"descendant", "slow", "cancel", "descendant-slowparent", "nodeadline", "descendant-cancel", "descendant-failing", "lingers", "lingers-after-error"}
 	var out []*Case
 	for i := 0; i < n; i++ {
 		kind := kinds[i%len(kinds)]
@@ -1457,6 +1496,10 @@ func timingCases(n int, seed uint64) []*Case {
 			c.Ctx, c.CancelMs, c.SleepMs, c.ChildSleepMs = "deadline", 0, longSleepMs, longSleepMs
 		case "lingers": // the complete valid reply is out at once, the process outlives the deadline and is killed: no successful exit
 			c.Ctx, c.CancelMs, c.SleepMs, c.LingerMs = "deadline", 0, 0, longSleepMs
+		case "lingers-after-error": // the plugin's complete structured error is out at once, then the process hangs and is killed
+			c.Ctx, c.CancelMs, c.SleepMs, c.LingerMs = "deadline", 0, 0, longSleepMs
+			c.Exit, c.Err, c.Out, c.Stdout = 1, "structured", "empty", ""
+			c.Stderr = structuredError(c)
 		case "slow":
 			c.Ctx, c.CancelMs, c.SleepMs = "deadline", 0, longSleepMs
 		case "cancel":
@@ -1482,7 +1525,7 @@ func TestC17_Timing(t *testing.T) {
 		}
 		cases = []*Case{&rc}
 	} else {
-		n := 8 // one case of every timing kind (cancellation without deadline + descendant included)
+		n := 9 // one case of every timing kind (cancellation without deadline + descendant included)
 		if stats.Tier() == "thorough" {
 			n = 60
 		}
